@@ -783,6 +783,23 @@ class MatchFunction:
         self.fn = fn
 
 
+class _SameObject(MatchFunction):
+    """Match a value by identity (used for the receiver of a bound method)."""
+
+    def __init__(self, obj):
+        self.obj = obj
+        super().__init__(lambda value: value is obj)
+
+    def __eq__(self, other):
+        return isinstance(other, _SameObject) and other.obj is self.obj
+
+    def __hash__(self):
+        return id(self.obj)
+
+    def __str__(self):
+        return str(self.obj)
+
+
 def _dig(fn):
     while hasattr(fn, "__wrapped__") and not is_tooled(fn):
         fn = fn.__wrapped__
@@ -806,7 +823,8 @@ def _resolve(selector, env, cnt):
                 Element(
                     name=selfname,
                     capture=selfname,
-                    value=fn.__self__,
+                    # The instance itself, whatever its __eq__ or __hash__
+                    value=_SameObject(fn.__self__),
                 )
             )
         else:
